@@ -73,6 +73,13 @@ CLAIMS = {
          "constantly-true float membership the checked narrowing always succeeds. The model's definitions are evaluated in Coq (the f64->f32 cast looked up from the same Rust build) and compared with the implementation on 520+ "
          "conversions over {f32,f64}^2, dimensions 0..4 static/dynamic, all presence patterns. NOT proved: memory safety / leak freedom of the unsafe element loops -- a property of the compiled code, not of any Gallina term; the thorough "
          "tier runs the conversion cases under Miri as supporting evidence only. Exactness of f32->f64 widening is IEEE semantics of `as` (trusted)."),
+ 'C11': ("Coq proof for an arbitrary scalar instance on the TRANSLATED ComplexField/RealField impl bodies: every constant = from_re of the float constant of the same name, every method = the generic dual operation it names, selections return an operand; bit-exact correspondence through the nalgebra traits",
+         "The bodies of the ComplexField and RealField impls of Dual, Dual2, DualVec, Dual2Vec are translated (gen/Gen_Field.v, 62 methods per type; floor/ceil/round/trunc/fract panic by design, is_finite/try_sqrt/min_value/max_value "
+         "are outside the model). Theorems (Props/C11.v, 228) for an arbitrary interpretation of the scalar interface: each of the fifteen RealField constants is from_re of the FloatConst constant of the SAME name (name table written by hand); "
+         "each forwarded method equals the generic dual operation (sin..cbrt, sin_cos, mul_add, powi; powf/powc = powd; log to a dual base = ln/ln; hypot = sqrt(x^2+y^2); scale/unscale = * /; modulus/norm1/abs = abs; real/conjugate/"
+         "from_real = id; imaginary = 0; argument = 0 or pi by the sign of the real part; atan2); max/min/clamp return one of their operands, copysign +-abs, is_sign_* read the real part. Combined with C01/C03 these give the derivative "
+         "semantics. The implementation is called through nalgebra's traits on six types: constants against the f64 constants of the same Rust build, methods bit for bit against the generic operation and against the same method on plain floats "
+         "in the real part, single-lane SIMD splat/extract/replace/select round trips (tested, not modelled: SimdValue impls are untranslated)."),
 }
 props = [json.loads(l) for l in open('/verif/properties.jsonl')]
 checks = []
